@@ -65,6 +65,13 @@ pub struct PeerScript {
     /// the runtime has reported that remote gone (it never attaches if that does not happen).
     #[serde(default, skip_serializing_if = "Option::is_none")]
     pub reattach_of: Option<u32>,
+    /// The peer attaches only after this much simulated time has passed (0: at once).
+    #[serde(default, skip_serializing_if = "is_zero")]
+    pub attach_after_ms: u64,
+}
+
+fn is_zero(v: &u64) -> bool {
+    *v == 0
 }
 
 #[derive(Debug, Clone, Serialize, Deserialize, PartialEq, Eq)]
@@ -291,7 +298,7 @@ pub fn generate(seed: u64, focus: &str, _tier: Tier) -> AgentScenario {
         4 => PolicyCfg::StarveAgent { steps: g.rng.range(20, 400) },
         _ => PolicyCfg::Random,
     };
-    let knobs = Knobs {
+    let mut knobs = Knobs {
         lane_in_buf: *g.rng.pick(buf_choices),
         lane_out_buf: *g.rng.pick(buf_choices),
         att_queue: *g.rng.pick(&[1u32, 2, 4, 16]),
@@ -397,7 +404,51 @@ pub fn generate(seed: u64, focus: &str, _tier: Tier) -> AgentScenario {
             one_way: false,
             ops,
             reattach_of: None,
+            attach_after_ms: 0,
         });
+    }
+    // Remotes that come and go in simulated time (C04 focus): one attaches and never links (the runtime prunes it after
+    // `prune_ms`), a second one attaches shortly before that deadline, links shortly after it and keeps the agent busy
+    // with commands that are less than an inactivity period apart. The agent must stay up all the while.
+    {
+        let mut ir = root.sub("idle-attach");
+        if focus == "C04" && ir.chance(1, 8) {
+            let p = *ir.pick(&[200u64, 1000, 4000]);
+            let t = p * *ir.pick(&[3u64, 5]);
+            knobs.prune_ms = p;
+            knobs.inactive_timeout_ms = t;
+            let base = peers.len() as u32;
+            peers.push(PeerScript {
+                id: base,
+                out_cap: 4096,
+                in_cap: 4096,
+                chunk_seed: root.sub(&format!("chunk{base}")).next_u64(),
+                read: ReadCfg { max_chunk: 4096, stall_pm: 0, stall_max: 1, freeze_after: 0 },
+                attach_delay: 0,
+                one_way: false,
+                ops: vec![],
+                reattach_of: None,
+                attach_after_ms: 0,
+            });
+            let mut ops = vec![Op::Sleep { ms: p / 5 }, Op::Link { lane: "val".into() }];
+            for _ in 0..ir.range(2, 5) {
+                let v = g.vals(1);
+                ops.push(Op::Cmd { lane: "val".into(), body: v.to_string() });
+                ops.push(Op::Sleep { ms: t / 2 });
+            }
+            peers.push(PeerScript {
+                id: base + 1,
+                out_cap: 4096,
+                in_cap: 4096,
+                chunk_seed: root.sub(&format!("chunk{}", base + 1)).next_u64(),
+                read: ReadCfg { max_chunk: 4096, stall_pm: 0, stall_max: 1, freeze_after: 0 },
+                attach_delay: 0,
+                one_way: false,
+                ops,
+                reattach_of: None,
+                attach_after_ms: p * 9 / 10,
+            });
+        }
     }
     // The agent fails in the middle of the run (C04 focus): a handler raises an error that is fatal for the agent task.
     {
@@ -464,6 +515,7 @@ pub fn generate(seed: u64, focus: &str, _tier: Tier) -> AgentScenario {
                     one_way: false,
                     ops,
                     reattach_of: Some(peers[q].id),
+                    attach_after_ms: 0,
                 });
             }
         }
@@ -974,6 +1026,7 @@ fn generate_dyn(root: Rng, mut g: Gen, mut knobs: Knobs) -> AgentScenario {
         one_way: false,
         ops,
         reattach_of: None,
+            attach_after_ms: 0,
     });
     for id in 1..=r.range(0, 2) as u32 {
         let mut ops = vec![Op::Pause { polls: *r.pick(&[0u32, 10, 40, 120]) }];
@@ -996,6 +1049,7 @@ fn generate_dyn(root: Rng, mut g: Gen, mut knobs: Knobs) -> AgentScenario {
             one_way: false,
             ops,
             reattach_of: None,
+            attach_after_ms: 0,
         });
     }
     AgentScenario {
